@@ -249,6 +249,8 @@ CONC_TAGS = {
     "resize": ["C10"], "hb": ["C15"], "clear": ["C05"],
     # an iterator's view that no order of the (consistent) single-key operations explains
     "iter-lin": ["C07"],
+    # mid-run probe: nobody holds a tree bin's write lock, yet its tree and its traversal list differ
+    "tree-list": ["C06", "C01", "C07"],
 }
 
 
@@ -953,7 +955,10 @@ def check_C07(R):
     translator_step(R)
     lean_step(R, "C07")
     if harness_step(R):
-        conc_step(R, "C07", modes=("iter",))
+        # "frozeniter": the iterator starts only when every other thread is suspended - at a random
+        # point, right after an overwriting store to a bin cell or link, or right after a tree bin
+        # has been forwarded / replaced - and is judged by the same weak-consistency oracle
+        conc_step(R, "C07", modes=("iter", "frozeniter"))
         frozen_chain_step(R)
 
 
